@@ -7,6 +7,7 @@ CONSTANTS KindA = "stream"
           Credits = {1}
           MaxGrants = 1
           HasPub = FALSE
+          Frag = 0
           LibSource = TRUE
 INVARIANT NoClauseFails
 INVARIANT DeliveredIsPrefixOfHanded
